@@ -29,6 +29,8 @@ META = {
 
 THEOREMS = [
     "C15_atomic_written",
+    "C15_close_fault_unchanged",
+    "C15_atomic_rename_first_refuted",
     "C15_guards",
     "C15_atomic",
     "C15_no_temp_left",
@@ -245,14 +247,22 @@ def run_impl(item):
 
             p._handle_warnings = raiser
         result = None
-        with Injector(work, fault) as inj:
-            try:
-                with warnings.catch_warnings(record=True):
-                    warnings.simplefilter("always")
-                    p.write_to_file(dest, overwrite=sc["overwrite"])
-            except Exception as e:  # noqa: BLE001
-                result = errclass(e)
-        fired = inj.fired or state["fired"]
+        where = None
+        if fault["k"] == "rlimit":
+            # a REAL fault of the operating system, nothing patched: the file size limit of a forked child
+            result, where = _write_under_rlimit(p, dest, sc["overwrite"], fault["limit"])
+            fired = where is not None
+            nwrites = 0
+        else:
+            with Injector(work, fault) as inj:
+                try:
+                    with warnings.catch_warnings(record=True):
+                        warnings.simplefilter("always")
+                        p.write_to_file(dest, overwrite=sc["overwrite"])
+                except Exception as e:  # noqa: BLE001
+                    result = errclass(e)
+            fired = inj.fired or state["fired"]
+            nwrites = inj.nwrites
         # ---- observe the file system
         if os.path.isdir(dest):
             listing = sorted(os.listdir(dest))
@@ -268,9 +278,51 @@ def run_impl(item):
         else:
             after = {"k": "absent"}
         stray = sorted(f for f in os.listdir(work) if f != DEST_NAME)
-        return {"result": result, "after": after, "stray": stray, "fired": fired, "nwrites": inj.nwrites}
+        return {"result": result, "after": after, "stray": stray, "fired": fired, "nwrites": nwrites, "where": where}
     finally:
         shutil.rmtree(scratch, ignore_errors=True)
+
+
+def _write_under_rlimit(p, dest, overwrite, limit):
+    """write_to_file in a forked child whose RLIMIT_FSIZE is `limit` bytes (SIGXFSZ ignored, so the kernel answers
+    EFBIG to the write that would pass the limit).  Returns (exception class or None, where): where = "close" if the
+    OSError came out of the handle's __exit__, "write" if out of the with-block, None if the OS raised nothing."""
+    import resource
+    import signal
+    import traceback
+
+    r, w = os.pipe()
+    pid = os.fork()
+    if pid == 0:
+        try:
+            os.close(r)
+            signal.signal(signal.SIGXFSZ, signal.SIG_IGN)
+            resource.setrlimit(resource.RLIMIT_FSIZE, (limit, limit))
+            try:
+                with warnings.catch_warnings(record=True):
+                    warnings.simplefilter("always")
+                    p.write_to_file(dest, overwrite=overwrite)
+                out = {"result": None, "where": None}
+            except BaseException as e:  # noqa: BLE001
+                names = [f.name for f in traceback.extract_tb(e.__traceback__)]
+                is_os = isinstance(e, OSError) and getattr(e, "errno", None) is not None
+                out = {"result": errclass(e), "where": ("close" if "__exit__" in names else "write") if is_os else None}
+            os.write(w, json.dumps(out).encode())  # a pipe is not subject to the file size limit
+        finally:
+            os._exit(0)
+    os.close(w)
+    data = b""
+    while True:
+        chunk = os.read(r, 65536)
+        if not chunk:
+            break
+        data += chunk
+    os.close(r)
+    os.waitpid(pid, 0)
+    if not data:
+        raise MachineryError("the RLIMIT_FSIZE child died without an answer")
+    out = json.loads(data)
+    return out["result"], out["where"]
 
 
 # --------------------------------------------------------------------------- oracle (the property itself, real code only)
@@ -348,7 +400,7 @@ def _wrote_every_line(text, problem):
         for f in problem[name]:
             want += f.get("lines", [])
     got = text.split("\n")
-    return [l for l in got if l.strip()] == [l for l in want if l.strip()]
+    return [l.rstrip() for l in got if l.strip()] == [l.rstrip() for l in want if l.strip()]
 
 
 def judge(drv, item, obs, ref):
@@ -358,6 +410,8 @@ def judge(drv, item, obs, ref):
     before = sc["dest"]
     after = obs["after"]
     fk = sc["fault"]["k"] if obs["fired"] else "none"
+    if fk == "rlimit":
+        fk = obs.get("where") or "none"  # the step at which the operating system refused the bytes
     if obs["result"] is not None and fk == "none":
         fk = "object"  # an exception of the problem's own objects (illegal state, unencodable text, …)
     base = {"mechanism": "write", "fault": fk, "dest": before["k"]}
@@ -396,7 +450,9 @@ def judge(drv, item, obs, ref):
         return {"mechanism": "format", "class": "unreadable-output", "site": site, "fault": fk, "dest": before["k"]}
     if obs["result"] is None:
         return dict(base, **{"class": "incomplete-on-success", "why": why.split(":")[0]})
-    return dict(base, **{"class": "truncated" if fk in ("format", "object", "open") else "partial"})
+    # the original is gone and what is there is not a complete problem: `partial` when the k-th write failed and the
+    # lines before it were left, `truncated` for every other step (format, object, open, close, replace, warn)
+    return dict(base, **{"class": "partial" if fk == "write" else "truncated"})
 
 
 # --------------------------------------------------------------------------- model side
@@ -408,6 +464,13 @@ def model_scenario(sc, obs, ref_nwrites):
         f = {"k": "none"}
     elif f["k"] == "write" and ref_nwrites:
         f["i"] = min(f["i"], ref_nwrites - 1)
+    elif f["k"] == "rlimit":
+        # the OS refused bytes while a chunk was flushed inside fh.write, or while the rest was flushed by close
+        f = {"k": "close", "flushed": "none"} if obs.get("where") == "close" else {"k": "write", "i": 0, "sent": 0}
+    if f["k"] == "close":
+        # how much of Python's buffer reached the file before close failed: (whole lines, characters of the next)
+        n = ref_nwrites or 0
+        f["lines"], f["chars"] = {"none": (0, 0), "half": (n // 2, 3), "all": (n, 0)}.get(f.get("flushed", "all"), (0, 0))
     return {"dest": sc["dest"], "overwrite": sc["overwrite"], "fault": f}
 
 
@@ -446,6 +509,19 @@ def fixture_specs():
             continue
         out.append({"fixture": n, "edits": []})
     return out
+
+
+def big_text():
+    """A valid problem of about 18 KiB: Python's 8 KiB buffer is flushed twice before the handle is closed."""
+    n = 200
+    lines = ["big problem"]
+    for i in range(1, n + 1):
+        lines.append(f"{i} 0 -{i} imp:n=1 $ " + "filler " * 9)
+    lines.append("")
+    for i in range(1, n + 1):
+        lines.append(f"{i} so {i}.5")
+    lines += ["", "mode n", "nps 10", ""]
+    return "\n".join(lines) + "\n"
 
 
 def gen_text(rng):
@@ -523,8 +599,14 @@ def scenarios_for(ref, rng, full, original):
         "dir": {"k": "dir"},
     }
 
-    def faults(everything):
-        fs = [{"k": "none"}, {"k": "open"}, {"k": "close"}, {"k": "replace"}, {"k": "warn", "e": "RuntimeError"}]
+    def faults(everything, dk):
+        fs = [{"k": "none"}, {"k": "open"}, {"k": "replace"}, {"k": "warn", "e": "RuntimeError"}]
+        # a failing close after none / half / all of the still buffered data reached the file
+        fs += [{"k": "close", "flushed": f} for f in ("none", "half", "all")]
+        if everything or dk == "file":
+            # the real thing: RLIMIT_FSIZE of a forked child at several limits (0, inside the first lines, inside the
+            # file, beyond the first 8 KiB chunk of a big problem, more than the file needs)
+            fs += [{"k": "rlimit", "limit": n} for n in (0, 64, 300, 9000, 17000, 1 << 30)]
         ks = range(nfmt) if everything else sorted({0, nfmt - 1, rng.randrange(max(nfmt, 1))})
         for k in ks:
             if k >= 0:
@@ -544,7 +626,7 @@ def scenarios_for(ref, rng, full, original):
         ("dir", False, False),
         ("dir", True, False),
     ]:
-        for f in faults(everything):
+        for f in faults(everything, dk):
             out.append({"dest": dests[dk], "overwrite": ow, "fault": f})
     return out
 
@@ -662,6 +744,7 @@ def run(chk):
                 specs.append({"fixture": name, "edits": edits})
     specs.append({"scratch": True, "edits": []})
     specs.append({"text": TINY, "edits": []})
+    specs.append({"text": big_text(), "edits": []})  # more than two 8 KiB buffers: chunks are flushed inside fh.write
     ngen = chk.pick(10, 450)
     for _ in range(ngen):
         text = gen_text(rng)
